@@ -103,7 +103,7 @@ def subsample_model(X, r32):
     return rows, S, q
 
 
-def subsampled_score_model(Y, X, r32, corrected):
+def subsampled_score_model(Y, X, r32, corrected, rows_override=None):
     """Independent float64 formula for the r<1 estimator (documented behaviour: entropies of the sample,
     weighted by the ORIGINAL stratum sizes and the original n, then scaled by r)."""
     import numpy as np
@@ -112,6 +112,8 @@ def subsampled_score_model(Y, X, r32, corrected):
     n = len(X)
     r = float(np.float32(r32))
     rows, S, q = subsample_model(X, r32)
+    if rows_override is not None:
+        rows = rows_override
     if X == Y:
         corrected = False
     cx = Counter(X)
